@@ -190,3 +190,32 @@ def build_all(optmod):
         cs.append(Contract(MODULE + ':reoptimize_all', params={'monkey_patch': Const(True), 'first_build': Const(first)},
                            ensures=ens, env=env, notes='monkey_patch=True first_build=%s' % first))
     return cs
+
+
+def build_unlink(optmod):
+    """unlink_modules: every given path is handed to unlink once, in order; a path that cannot be removed (permission, read-only
+    file system) stops the helper with that error -- it must not report success while an old generated module is still there
+    (the next default Parser() would load it).  Lists of <= 3 paths; each unlink may fail."""
+    from vf.pyvc.engine import PyRaise, PExc
+    cs = []
+    rec = {}
+
+    def reset():
+        rec.clear()
+        rec.update(calls=[], failed=0)
+
+    def unlink(e, a, k):
+        rec['calls'].append(list(a))
+        if e.decide_free('unlink_fails_%d' % len(rec['calls'])):
+            rec['failed'] += 1
+            raise PyRaise(PExc(PermissionError, tag='unlink'))
+        return None
+    for n in (0, 1, 3):
+        paths = ['/pkg/tab%d.py' % i for i in range(n)]
+        env = {'__reset__': reset, 'unlink': PExt('os.unlink', unlink),
+               'unlinked': Helper(lambda e: [c[0] for c in rec['calls'] if len(c) == 1]), 'failed': Helper(lambda e: rec['failed'])}
+        cs.append(Contract(MODULE + ':unlink_modules', params={'paths': Const(tuple(paths))},
+                           ensures=['failed() == 0', 'unlinked() == %r' % (paths,)],
+                           raises={'PermissionError': 'failed() == 1 and unlinked() == %r[:len(unlinked())]' % (paths,)},
+                           env=env, notes='%d paths' % n))
+    return cs
